@@ -111,16 +111,20 @@ func (e *G1) Marshal() []byte {
 		e.p = &curvePoint{}
 	}
 
-	e.p.MakeAffine()
+	// normalised on a copy: serialising a point must not write to it (the same point
+	// is read by several goroutines)
+	p := &curvePoint{}
+	p.Set(e.p)
+	p.MakeAffine()
 	ret := make([]byte, numBytes*2)
-	if e.p.IsInfinity() {
+	if p.IsInfinity() {
 		return ret
 	}
 	temp := &gfP{}
 
-	montDecode(temp, &e.p.x)
+	montDecode(temp, &p.x)
 	temp.Marshal(ret)
-	montDecode(temp, &e.p.y)
+	montDecode(temp, &p.y)
 	temp.Marshal(ret[numBytes:])
 
 	return ret
@@ -320,8 +324,11 @@ func (e *G2) Marshal() []byte {
 		e.p = &twistPoint{}
 	}
 
-	e.p.MakeAffine()
-	if e.p.IsInfinity() {
+	// normalised on a copy, see G1.Marshal
+	p := &twistPoint{}
+	p.Set(e.p)
+	p.MakeAffine()
+	if p.IsInfinity() {
 		return make([]byte, 1)
 	}
 
@@ -329,13 +336,13 @@ func (e *G2) Marshal() []byte {
 	//ret[0] = 0x01
 	temp := &gfP{}
 
-	montDecode(temp, &e.p.x.x)
+	montDecode(temp, &p.x.x)
 	temp.Marshal(ret[0:])
-	montDecode(temp, &e.p.x.y)
+	montDecode(temp, &p.x.y)
 	temp.Marshal(ret[numBytes:])
-	montDecode(temp, &e.p.y.x)
+	montDecode(temp, &p.y.x)
 	temp.Marshal(ret[2*numBytes:])
-	montDecode(temp, &e.p.y.y)
+	montDecode(temp, &p.y.y)
 	temp.Marshal(ret[3*numBytes:])
 
 	return ret
